@@ -238,6 +238,36 @@ type Rew struct {
 	Hist []EpochCredit `json:"hist"`
 	DZnn Digits        `json:"depZnn"` // sum of uncollected deposits
 	DQsr Digits        `json:"depQsr"`
+	// Unconditional: the contract pays every epoch it consumes whatever the participants (the liquidity contract before the
+	// bridge-and-liquidity spork mints the epoch's emission to itself); Paid = epochs paid by the receives of this momentum
+	Unconditional bool `json:"unconditional"`
+	Paid          int  `json:"paid"`
+}
+
+// LegacyLiquidity is set by drivers that know the liquidity contract runs its pre-spork update (lab walks without the HTLC /
+// bridge sporks). Unknown (traced repository tests) = false: the rule is not applied.
+var LegacyLiquidity bool
+
+// liquidityEpochsPaid counts the epochs the liquidity contract pays in a momentum: one ZNN mint to itself per epoch.
+func liquidityEpochsPaid(blocks []*RawBlock) int {
+	n := 0
+	for _, b := range blocks {
+		if b.BlockType != 5 || b.Address != types.LiquidityContract.String() {
+			continue
+		}
+		for _, d := range b.DescendantBlocks {
+			if d.ToAddress != types.TokenContract.String() {
+				continue
+			}
+			data := d.DataBytes()
+			param := new(definition.MintParam)
+			if definition.ABIToken.UnpackMethod(param, definition.MintMethodName, data) == nil &&
+				param.TokenStandard == types.ZnnTokenStandard && param.ReceiveAddress == types.LiquidityContract {
+				n++
+			}
+		}
+	}
+	return n
 }
 
 // Emission cap of contract c for epoch e. epochMomentums is the number of momentum slots of an epoch
@@ -356,6 +386,15 @@ func StandardObserver(epochMomentums int64) func(p *Projector, h uint64, ms stor
 				maxAdd[1] = new(big.Int).Set(li.QsrReward)
 			}
 		}
-		ev["rew"] = Rewards(ms, epochMomentums, map[string][2]*big.Int{types.LiquidityContract.String(): maxAdd})
+		rews := Rewards(ms, epochMomentums, map[string][2]*big.Int{types.LiquidityContract.String(): maxAdd})
+		if LegacyLiquidity && p.LastRaw != nil {
+			for i := range rews {
+				if rews[i].C == types.LiquidityContract.String() {
+					rews[i].Unconditional = true
+					rews[i].Paid = liquidityEpochsPaid(p.LastRaw.Blocks)
+				}
+			}
+		}
+		ev["rew"] = rews
 	}
 }
